@@ -49,8 +49,15 @@ package main
 //	e<n>  the tagged fields live in an anonymous embedded struct of the holder, n = 1 | 2 levels deep (reflect.StructOf)
 //	g<n>  the holder is the Go-declared type number n of vlGoHolders (fields promoted through Go's own embedding)
 //
+//	c<n>  (seventh round) the keys of the YAML document — every level — are written in letter case n of vlRecase (1 Capitalised,
+//	      2 UPPER, 3 aLTERNATING); the configuration token keeps them in lower case, which is what viper makes of them
+//	r     (seventh round) the scenario is started vlDepStarts times although the holder has no component field: mapstructure
+//	      ranges over a Go map when it looks for the key of a struct field, every start must bind the same values
+//
 // ty      S string | I int | J int64 | U uint | D float64 | B bool | A any | P<ty> | L<ty> | M<ty> | T(hexname:ty:hexvalidate,…)
+//         Z time.Time | Y vlStamp (a named type whose underlying type is time.Time)   — outside the model's types: oracle only
 // cfg     m(hexkey=val,…)   val = z | s<hex> | i<dec> | F<dec> (integer valued float) | f<decimal> | b0 | b1 | l(val,…) | m(hexkey=val,…)
+//         | t<hex> a YAML timestamp, written unquoted (`2024-05-01`, `2024-05-01T10:20:30Z`): yaml.v3 hands over a time.Time
 // evals   e(hexexpr=val|!,…)   what expr.Compile/Run gives DIRECTLY for the expression texts the real run meets
 // verdicts v(hexrender=0|1,…)  what validator gives DIRECTLY for the value the field should hold
 //
@@ -89,6 +96,13 @@ package main
 //        key of a map bound by prefix through the section (or a higher ancestor) that NO Set is at, above or below is lost
 //        (zero / missing) although prop / ${} / prefix on the member itself still give the document's value; any other
 //        difference of such a member is setget-current.
+//   seventh round: valuepath-keycase — a map literal (or the default of a placeholder) whose keys are spelled with capitals is not
+//        bound as written into a struct / *struct / []struct / map-of-struct (a member is found under the key equal to its
+//        name up to letter case); in literal cases the prefix twin is judged too (prefix-mismatch) and a shorthand that spells
+//        the value tag's own placeholder must bind what the value tag binds (prop-differs).  Flag r: several fresh starts of
+//        one scenario must bind the same values (start-unstable).
+//        validate-panic (C18, also C09) — the value was bound, the validator applied directly gives a verdict (pass or error),
+//        the container PANICS instead of starting / returning an error.
 //   kind HM: bound-aliased — a late field does not hold the document's value after the owner of ANOTHER field edited its
 //        own bound map / list (no Set anywhere).
 
@@ -102,6 +116,7 @@ import (
 	"sort"
 	"strconv"
 	"strings"
+	"time"
 	"unicode/utf8"
 
 	"github.com/expr-lang/expr"
@@ -167,6 +182,10 @@ func (t *vlFty) rtype() reflect.Type {
 		return reflect.TypeOf(false)
 	case 'A':
 		return reflect.TypeOf((*any)(nil)).Elem()
+	case 'Z':
+		return vlTimeType
+	case 'Y':
+		return reflect.TypeOf(vlStamp{})
 	case 'P':
 		return reflect.PointerTo(t.elem.rtype())
 	case 'L':
@@ -192,7 +211,7 @@ func vlParseFty(s string) (*vlFty, string, bool) {
 		return nil, s, false
 	}
 	switch s[0] {
-	case 'S', 'I', 'J', 'U', 'D', 'B', 'A':
+	case 'S', 'I', 'J', 'U', 'D', 'B', 'A', 'Z', 'Y':
 		return &vlFty{k: s[0]}, s[1:], true
 	case 'P', 'L', 'M':
 		e, rest, ok := vlParseFty(s[1:])
@@ -283,6 +302,8 @@ func (c *vlCval) tok() string {
 		return "F" + strconv.FormatInt(c.i, 10)
 	case 'f':
 		return "f" + c.s
+	case 't':
+		return "t" + hx.Hex(c.s)
 	case 'b':
 		if c.b {
 			return "b1"
@@ -322,6 +343,13 @@ func vlParseCval(s string) (*vlCval, string, bool) {
 		h, rest := scan(s[1:], "0123456789abcdef-")
 		v, err := hx.UnHex(h)
 		return vlCStr(v), rest, err == nil
+	case 't':
+		h, rest := scan(s[1:], "0123456789abcdef-")
+		v, err := hx.UnHex(h)
+		if _, ok := vlParseStamp(v); err != nil || !ok {
+			return nil, s, false
+		}
+		return vlCStamp(v), rest, true
 	case 'i', 'F':
 		d, rest := scan(s[1:], "0123456789-")
 		v, err := strconv.ParseInt(d, 10, 64)
@@ -408,6 +436,8 @@ func (c *vlCval) yaml() string {
 		return strconv.FormatInt(c.i, 10) + ".0"
 	case 'f':
 		return c.s
+	case 't': // a plain (unquoted) scalar of the timestamp shape
+		return c.s
 	case 'b':
 		return strconv.FormatBool(c.b)
 	case 'l':
@@ -440,6 +470,9 @@ func (c *vlCval) native() any {
 	case 'f':
 		f, _ := strconv.ParseFloat(c.s, 64)
 		return f
+	case 't':
+		tm, _ := vlParseStamp(c.s)
+		return tm
 	case 'b':
 		return c.b
 	case 'l':
@@ -582,6 +615,13 @@ func vlRender(v reflect.Value) string {
 		}
 		return "{" + strings.Join(p, ",") + "}"
 	case reflect.Struct:
+		if v.Type().ConvertibleTo(vlTimeType) {
+			// a point in time (time.Time or a named type over it): the instant, zone-independent
+			if !v.CanInterface() {
+				return "t?"
+			}
+			return "t" + v.Convert(vlTimeType).Interface().(time.Time).UTC().Format(time.RFC3339Nano)
+		}
 		var p []string
 		for i := 0; i < v.NumField(); i++ {
 			p = append(p, hx.Hex(vlYamlName(v.Type().Field(i)))+":"+vlRender(v.Field(i)))
@@ -774,6 +814,16 @@ func vlDirectEval(src string) (res any, err error) {
 }
 
 func vlDirectDecode(in any, t reflect.Type) (reflect.Value, error) {
+	return vlDirectDecodeLayout(in, t, "", false)
+}
+
+// vlDirectDecodeLayout: as vlDirectDecode; withLayout = the tag carries a `timeLayout=<layout>` argument (texts are then
+// read as points in time of that layout when the target is a time.Time: mapstructure.StringToTimeHookFunc).
+func vlDirectDecodeLayout(in any, t reflect.Type, layout string, withLayout bool) (reflect.Value, error) {
+	hooks := []mapstructure.DecodeHookFunc{mapstructure.StringToTimeDurationHookFunc()}
+	if withLayout {
+		hooks = append(hooks, mapstructure.StringToTimeHookFunc(layout))
+	}
 	target := t
 	isPtr := false
 	if t.Kind() == reflect.Pointer {
@@ -782,7 +832,7 @@ func vlDirectDecode(in any, t reflect.Type) (reflect.Value, error) {
 	}
 	out := reflect.New(target)
 	dec, err := mapstructure.NewDecoder(&mapstructure.DecoderConfig{
-		DecodeHook:       mapstructure.ComposeDecodeHookFunc(mapstructure.StringToTimeDurationHookFunc()),
+		DecodeHook:       mapstructure.ComposeDecodeHookFunc(hooks...),
 		WeaklyTypedInput: true,
 		Result:           out.Interface(),
 		TagName:          "yaml",
@@ -797,6 +847,73 @@ func vlDirectDecode(in any, t reflect.Type) (reflect.Value, error) {
 		return out, nil
 	}
 	return out.Elem(), nil
+}
+
+// ---- points in time (seventh round)
+
+// vlStamp: a named type whose underlying type is time.Time (struct by kind, convertible to time.Time).
+type vlStamp time.Time
+
+var vlTimeType = reflect.TypeOf(time.Time{})
+
+func vlCStamp(s string) *vlCval { return &vlCval{k: 't', s: s} }
+
+// vlParseStamp: the two timestamp shapes the harness writes as plain YAML scalars — a date, or date and time in UTC — read
+// the way yaml.v3 reads them (UTC).
+func vlParseStamp(s string) (time.Time, bool) {
+	for _, layout := range []string{"2006-01-02", "2006-01-02T15:04:05Z"} {
+		if tm, err := time.Parse(layout, s); err == nil && tm.Format(layout) == s {
+			return tm, true
+		}
+	}
+	return time.Time{}, false
+}
+
+// vlHasTimeType / vlHasStampVal: the case is outside the types / values the model carries.
+func vlHasTimeType(t *vlFty) bool {
+	switch t.k {
+	case 'Z', 'Y':
+		return true
+	case 'P', 'L', 'M':
+		return vlHasTimeType(t.elem)
+	case 'T':
+		for _, f := range t.fields {
+			if vlHasTimeType(f.t) {
+				return true
+			}
+		}
+	}
+	return false
+}
+
+func vlHasStampVal(c *vlCval) bool {
+	switch c.k {
+	case 't':
+		return true
+	case 'l':
+		for _, e := range c.l {
+			if vlHasStampVal(e) {
+				return true
+			}
+		}
+	case 'm':
+		for _, e := range c.mv {
+			if vlHasStampVal(e) {
+				return true
+			}
+		}
+	}
+	return false
+}
+
+// vlTimeLayoutArg: the `timeLayout=<layout>` argument of a tag.
+func vlTimeLayoutArg(args string) (layout string, present bool) {
+	for _, a := range strings.Split(args, ",") {
+		if strings.HasPrefix(a, "timeLayout=") {
+			return strings.TrimPrefix(a, "timeLayout="), true
+		}
+	}
+	return "", false
 }
 
 var vlDirectValidator = validator.New(validator.WithRequiredStructEnabled())
@@ -1054,7 +1171,7 @@ func vlObserveOnce(t reflect.Type, tagStrs []string, doc string, prefill, dep bo
 // one otherwise; a field whose outcome is not the same in every start is `unstable(a|b)`.
 func vlObserve(t reflect.Type, tagStrs []string, doc string, prefill, dep bool, opt vlHolderOpt) (obs []string, remnant, unstable bool) {
 	starts := 1
-	if dep {
+	if dep || opt.repeat {
 		starts = vlDepStarts
 	}
 	var all [][]string
@@ -1237,14 +1354,14 @@ func vlExpectRender(c *vlCval, t *vlFty) (string, bool) {
 			for _, f := range t.fields {
 				var r string
 				ok := true
-				found := false
-				for i, k := range c.mk {
-					if k == f.name {
-						r, ok = vlExpectRenderElem(c.mv[i], f.t)
-						found = true
-					}
-				}
-				if !found {
+				// the key of a member: the one spelled exactly like the member's name, else the one equal to it up to letter
+				// case (configuration keys are case-insensitive; `_` and `-` are ordinary characters of a key)
+				switch i, n := vlMemberKey(c, f.name); {
+				case n > 1:
+					return "", false // two spellings of one key in one map: no expectation
+				case n == 1:
+					r, ok = vlExpectRenderElem(c.mv[i], f.t)
+				default:
 					r = vlZeroRender(f.t)
 				}
 				if !ok {
@@ -1256,6 +1373,23 @@ func vlExpectRender(c *vlCval, t *vlFty) (string, bool) {
 		}
 	}
 	return "", false
+}
+
+// vlMemberKey: the index of the key of map c that belongs to the struct member `name` (n = 1), n = 0 when there is none,
+// n > 1 when several keys differ from the name in letter case only and none is spelled exactly like it.
+func vlMemberKey(c *vlCval, name string) (idx, n int) {
+	for i, k := range c.mk {
+		if k == name {
+			return i, 1
+		}
+	}
+	for i, k := range c.mk {
+		if strings.EqualFold(k, name) {
+			idx = i
+			n++
+		}
+	}
+	return idx, n
 }
 
 func vlExpectRenderElem(c *vlCval, t *vlFty) (string, bool) {
@@ -1315,6 +1449,8 @@ type vlVcase struct {
 	file    bool        // flag f: the document is written to a file and loaded by loader.NewFileLoader
 	embed   int         // flag e<n>: the tagged fields live in an anonymous embedded struct, n levels deep (by value)
 	gotype  int         // flag g<n>: the holder is the Go-declared type number n of vlGoHolders (tags and type fixed by the table)
+	kcase   int         // flag c<n>: the keys of the document are written in letter case n of vlRecase (the configuration has them in lower case)
+	repeat  bool        // flag r: the scenario is started vlDepStarts times (no component field), all starts must agree
 	set     *vlCval     // kinds R3 RE RQ: the keys changed with app.Set between the two creations (a map)
 	gate    string      // kinds R3 RE RQ: why the first creation fails: n | a0 | a1 | w
 	labels  []string
@@ -1341,9 +1477,10 @@ type vlHolderOpt struct {
 	file   bool // the document goes through a file and loader.NewFileLoader
 	embed  int  // the tagged fields live in an anonymous embedded struct, this many levels deep
 	gotype int  // > 0: the Go-declared holder vlGoHolders[gotype-1]
+	repeat bool // several start-ups of the same scenario although the holder has no component field
 }
 
-func (c *vlVcase) holderOpt() vlHolderOpt { return vlHolderOpt{c.file, c.embed, c.gotype} }
+func (c *vlVcase) holderOpt() vlHolderOpt { return vlHolderOpt{c.file, c.embed, c.gotype, c.repeat} }
 
 func (c *vlVcase) moreFlags() string {
 	fl := ""
@@ -1358,6 +1495,12 @@ func (c *vlVcase) moreFlags() string {
 	}
 	if c.gotype > 0 {
 		fl += "g" + strconv.Itoa(c.gotype)
+	}
+	if c.kcase > 0 {
+		fl += "c" + strconv.Itoa(c.kcase)
+	}
+	if c.repeat {
+		fl += "r"
 	}
 	return fl
 }
@@ -1435,8 +1578,17 @@ func vlRunCase(c *vlVcase, w *hx.Writer) {
 	if c.ystyle > 0 && len(c.tags) > 0 {
 		doc = vlYamlDocStyled(c.cfg, c.ystyle, vlTagText(c.tags[len(c.tags)-1]))
 	}
-	cfgNative, _ := c.cfg.native().(map[string]any)
 	hist := c.set != nil
+	if c.kcase > 0 {
+		// the document spells its keys with capitals; viper hands them out in lower case, as the configuration token has them
+		if c.ystyle > 0 || hist || c.kcase > vlKeyCases || !vlKeysLower(c.cfg) {
+			return
+		}
+		doc = vlYamlDoc(vlRecaseKeys(c.cfg, c.kcase))
+	}
+	cfgNative, _ := c.cfg.native().(map[string]any)
+	timed := vlHasTimeType(c.t) || vlHasStampVal(c.cfg)
+	layout, hasLayout := vlTimeLayoutArg(c.args)
 	base := c.kind
 	if hist {
 		base = vlHistBase[c.kind]
@@ -1478,7 +1630,7 @@ func vlRunCase(c *vlVcase, w *hx.Writer) {
 						d.skipped = true
 						d.bound = reflect.Zero(rt)
 					}
-				} else if b, err := vlDirectDecode(v, rt); err != nil {
+				} else if b, err := vlDirectDecodeLayout(v, rt, layout, hasLayout); err != nil {
 					d.fails = true
 				} else {
 					d.bound = b
@@ -1505,7 +1657,7 @@ func vlRunCase(c *vlVcase, w *hx.Writer) {
 					var perr error
 					if hx.Guard(func() { pv, perr = strconv2.ParseAny(s) }) != nil || perr != nil {
 						d.fails = true
-					} else if b, err := vlDirectDecode(pv, rt); err != nil {
+					} else if b, err := vlDirectDecodeLayout(pv, rt, layout, hasLayout); err != nil {
 						d.fails = true
 					} else {
 						d.bound = b
@@ -1583,7 +1735,7 @@ func vlRunCase(c *vlVcase, w *hx.Writer) {
 		tagStrs = append(tagStrs, vlStructTag(names[i], tx))
 	}
 	// defaults only where something must be bound (an optional field for which nothing is configured keeps what it holds)
-	prefill := c.prefill && required && vlPrefillSafe(doc, texts) && !hist
+	prefill := c.prefill && required && vlPrefillSafe(doc, texts) && !hist && !timed
 	var obs []string
 	var remnant, unstable bool
 	if hist {
@@ -1608,6 +1760,9 @@ func vlRunCase(c *vlVcase, w *hx.Writer) {
 	modelled := evOK
 	if c.kind == "V3" && c.subject != nil && (vlHasUnmodelledForModel(c.t, c.subject) || vlNumTextUnmodelled(c.subject)) {
 		modelled = false
+	}
+	if timed {
+		modelled = false // points in time are outside the model's types and values: judged by the direct oracles only
 	}
 	for _, d := range append(append([]vlDirectRes{}, dir...), dir2...) {
 		if d.verdict == "panic" {
@@ -1645,6 +1800,12 @@ func vlRunCase(c *vlVcase, w *hx.Writer) {
 		if c.gotype > 0 {
 			cs2.Tags = append(cs2.Tags, "go-holder")
 		}
+		if c.kcase > 0 {
+			cs2.Tags = append(cs2.Tags, fmt.Sprintf("doc-keycase%d", c.kcase))
+		}
+		if c.repeat {
+			cs2.Tags = append(cs2.Tags, "repeated-starts")
+		}
 	}
 
 	// ---- oracles
@@ -1677,6 +1838,11 @@ func vlRunCase(c *vlVcase, w *hx.Writer) {
 		default:
 			d := dir[0]
 			want := vlWantOf(d)
+			if obs[0] == "panic" && want != "panic" && hasValidate && !d.fails {
+				// the value was bound and is handed to the validator, which answers with an error or with nil: a verdict
+				// is an error of Run or none, never a panic (C18; C09: Run returns an error, it does not panic)
+				cs2.Oracle = fmt.Sprintf("FAIL validate-panic the container panicked; the validator applied directly to the bound value gives %s tag=%q", want, texts[0])
+			}
 			if cs2.Oracle == "" || want == "panic" {
 				cs2.Oracle = ""
 				if obs[0] != want {
@@ -1750,10 +1916,40 @@ func vlOracleC17(c *vlVcase, obs []string, prior string) string {
 		sig := "other"
 		if len(classes) > 0 {
 			sig = classes[0]
+		} else if vlHasUpperKey(c.subject) {
+			sig = "keycase" // a map literal whose keys are spelled with capitals
 		}
 		return fmt.Sprintf("FAIL valuepath-%s literal bound as %s, written %s", sig, V, want)
 	}
+	// (seventh round) the twins of a literal: the prefix field holds the same data taken from the document, converted
+	// directly; a shorthand that spells the very placeholder of the value tag (`prop:"k:d"` next to `value:"${k:d}"`)
+	// binds what the value tag binds
+	if ok && c.subject.k != 'z' && X != want {
+		return fmt.Sprintf("FAIL prefix-mismatch prefix=%s document=%s", X, want)
+	}
+	if "${"+vlTagText(c.tags[1])+"}" == vlTagText(c.tags[0]) && V != P {
+		return fmt.Sprintf("FAIL prop-differs value=%s prop=%s", V, P)
+	}
 	return ""
+}
+
+// vlHasUpperKey: some map key of the value contains an upper-case letter.
+func vlHasUpperKey(c *vlCval) bool {
+	switch c.k {
+	case 'l':
+		for _, e := range c.l {
+			if vlHasUpperKey(e) {
+				return true
+			}
+		}
+	case 'm':
+		for i, k := range c.mk {
+			if k != strings.ToLower(k) || vlHasUpperKey(c.mv[i]) {
+				return true
+			}
+		}
+	}
+	return false
 }
 
 // vlDeclaresDefault: the value tag is the single placeholder `${key:default}`.
@@ -2119,8 +2315,9 @@ func vlValueReplay(scn string, w *hx.Writer) {
 	kind, flags, _ := strings.Cut(f[0], "+")
 	c := &vlVcase{kind: kind, t: t, cfg: cfg, labels: []string{"replay"},
 		prefill: strings.Contains(flags, "p"), dep: strings.Contains(flags, "d"),
-		ystyle: vlFlagNum(flags, 'y'), file: strings.Contains(flags, "f"), embed: vlFlagNum(flags, 'e'), gotype: vlFlagNum(flags, 'g')}
-	if c.embed > 2 || c.ystyle > vlDocStyles || c.gotype > len(vlGoHolders) {
+		ystyle: vlFlagNum(flags, 'y'), file: strings.Contains(flags, "f"), embed: vlFlagNum(flags, 'e'), gotype: vlFlagNum(flags, 'g'),
+		kcase: vlFlagNum(flags, 'c'), repeat: strings.Contains(flags, "r")}
+	if c.embed > 2 || c.ystyle > vlDocStyles || c.gotype > len(vlGoHolders) || c.kcase > vlKeyCases {
 		return
 	}
 	tagToks := f[5:]
@@ -2142,6 +2339,7 @@ func vlValueReplay(scn string, w *hx.Writer) {
 		c.set, c.gate, base, tagToks = set, f[6], b, f[7:]
 		c.prefill, c.dep = false, false
 		c.ystyle, c.file, c.embed, c.gotype = 0, false, 0, 0
+		c.kcase, c.repeat = 0, false
 	}
 	want := map[string]int{"V3": 3, "E": 1, "Q": 1}[base]
 	if want == 0 || len(tagToks) != want {
@@ -4202,6 +4400,15 @@ func vlValueGen(rng *hx.Rng, n int, tier string, w *hx.Writer) {
 	for i := 0; i < n/25; i++ {
 		vlRunHM(vlGenHMDeep(rng.Fork()), w)
 	}
+	// (seventh round) … and as many whose keys and member names differ in letter case: map literals and defaults of value tags
+	// next to the same data bound from the document, into struct / *struct / []struct / map-of-struct targets
+	for i := 0; i < n/25; i++ {
+		vlRunCase(vlGenC17KeyCase(rng.Fork()), w)
+	}
+	// … and as many whose sections have sibling keys that differ from a member's key by `-` / `_` only, started several times
+	for i := 0; i < n/25; i++ {
+		vlRunCase(vlGenC17Decoy(rng.Fork()), w)
+	}
 }
 
 func init() {
@@ -4237,6 +4444,11 @@ func init() {
 		// … and one more in twelve has its tagged field in an anonymous embedded struct of the holder (one or two levels deep)
 		for i := 0; i < n/12; i++ {
 			vlRunCase(vlGenEmbeddedCase(rng.Fork()), w)
+		}
+		// (seventh round) … and one more in twelve binds a point in time (time.Time, *time.Time, a named type over time.Time), with and
+		// without a validate argument
+		for i := 0; i < n/12; i++ {
+			vlRunCase(vlGenTimeCase(rng.Fork()), w)
 		}
 	}, Replay: vlValueReplay, Corpus: vlValueExprCorpus})
 }
@@ -4338,6 +4550,7 @@ func vlValueCorpus(w *hx.Writer) {
 	vlValueDocCorpus(w)
 	vlValueHMCorpus(w)
 	vlValueHMDeepCorpus(w)
+	vlValueKeyCorpus(w)
 }
 
 // vlValueHSCorpus: a start, app.Set, a later population (kind HS): the later holder shows the CURRENT configuration.
@@ -4587,6 +4800,7 @@ func vlValueExprCorpus(w *hx.Writer) {
 	rq := &vlVcase{kind: "RQ", t: st, cfg: vlCMap(m("ab", 80)), set: vlCMap(m("a", 80)), gate: "w", args: ",validate", tags: [][]vlTnode{{vlTLit("k")}}, labels: []string{"corpus", "retry", "gate-w"}}
 	vlRunCase(rq, w)
 	vlValueEmbeddedCorpus(w)
+	vlValueTimeCorpus(w)
 }
 
 // ---------------------------------------------------------------- histories with app.Set between two populations (kind HS)
@@ -7028,5 +7242,575 @@ func vlValueHMDeepCorpus(w *hx.Writer) {
 	for _, tail := range []string{"a", "z", "0", "1", "3", "4"} {
 		vlRunHM(&vlHMCase{mode: "i" + tail, cfg: doc, muts: mutsI, labels: []string{"corpus", "deep"}}, w)
 		vlRunHM(&vlHMCase{mode: "j" + tail, cfg: doc, muts: mutsJ, labels: []string{"corpus", "deep"}}, w)
+	}
+}
+
+// ---------------------------------------------------------------- seventh round
+//
+// (1) keys and member names in different letter case (label keycase).  A struct member is found under the key spelled exactly
+//     like its (yaml) name, else under the key equal to it up to letter case.  Keys that come out of the loaded document are in
+//     lower case whatever the document spelled; the keys of a MAP LITERAL in a value tag (`map[Host:a Port:1]`, the JSON form)
+//     and of a DEFAULT (`${k:map[Host:a]}`, `prop:"k:map[Host:a]"`) stay as written.  Targets: struct, *struct, []struct,
+//     map[string]struct, a nested struct member; member names and keys spelled host / Host / HOST / hOst independently.
+//     The literal is bound as written (valuepath-keycase), the prefix twin holds the same data from the document
+//     (prefix-mismatch), the shorthand twin of a placeholder with a default binds what the placeholder binds (prop-differs),
+//     `${k}` and `prop:"k"` equal `prefix:"k"` (valuepath-other).
+// (2) sibling keys that differ from a member's key by `-` / `_` only (label decoy): `a` next to `_a`, `a-`; `a_b` next to
+//     `ab`.  They are different keys; the member named A / aB holds the value under the key equal to its name up to letter case,
+//     on every one of vlDepStarts fresh starts (flag r; start-unstable / prefix-mismatch / valuepath-other).
+// (3) points in time (sub-harness valueexpr, label time): fields of type time.Time / *time.Time / vlStamp / *vlStamp bound by prefix
+//     from a YAML timestamp or from a text with a `timeLayout` argument, through `${k}`, from a literal; with and without a
+//     validate argument.  The validator applied directly to such a value answers with an error (it does not judge points
+//     in time handed over as a struct): Run fails (validate-iff); a panic is validate-panic.
+
+const vlKeyCases = 3
+
+// vlRecase: the key in letter case 1 Capitalised | 2 UPPER | 3 aLTERNATING (for keys in lower case: ToLower gives the key back).
+func vlRecase(k string, style int) string {
+	b := []byte(k)
+	for i := range b {
+		up := style == 2 || (style == 1 && i == 0) || (style == 3 && i%2 == 1)
+		if up && b[i] >= 'a' && b[i] <= 'z' {
+			b[i] -= 32
+		}
+	}
+	return string(b)
+}
+
+func vlRecaseKeys(c *vlCval, style int) *vlCval {
+	switch c.k {
+	case 'l':
+		out := &vlCval{k: 'l'}
+		for _, e := range c.l {
+			out.l = append(out.l, vlRecaseKeys(e, style))
+		}
+		return out
+	case 'm':
+		out := &vlCval{k: 'm'} // the order of the keys is kept (it only decides the order of the lines of the document)
+		for i, k := range c.mk {
+			out.mk = append(out.mk, vlRecase(k, style))
+			out.mv = append(out.mv, vlRecaseKeys(c.mv[i], style))
+		}
+		return out
+	}
+	return c
+}
+
+// vlKeysLower: no key of the value contains an upper-case letter (ASCII keys only).
+func vlKeysLower(c *vlCval) bool {
+	switch c.k {
+	case 'l':
+		for _, e := range c.l {
+			if !vlKeysLower(e) {
+				return false
+			}
+		}
+	case 'm':
+		for i, k := range c.mk {
+			for j := 0; j < len(k); j++ {
+				if k[j] >= 0x80 || (k[j] >= 'A' && k[j] <= 'Z') {
+					return false
+				}
+			}
+			if !vlKeysLower(c.mv[i]) {
+				return false
+			}
+		}
+	}
+	return true
+}
+
+// vlSpell: the word in one of the letter cases people write keys in; style 0 = as it is (lower case).
+func vlSpell(r *hx.Rng, w string, style int) string {
+	b := []byte(w)
+	up := func(i int) {
+		if i < len(b) && b[i] >= 'a' && b[i] <= 'z' {
+			b[i] -= 32
+		}
+	}
+	switch style {
+	case 1: // Host
+		up(0)
+	case 2: // HOST
+		for i := range b {
+			up(i)
+		}
+	case 3: // hOst
+		up(1)
+		if len(b) < 2 {
+			up(0)
+		}
+	case 4: // a capital somewhere
+		up(r.Intn(len(b)))
+	}
+	return string(b)
+}
+
+// vlLitText: the value as a literal of a value tag — the bracket notation `map[k:v k:v]` `[a,b]`, or JSON.  Only for
+// plain words, small integers, booleans, lists and maps of those.
+func vlLitText(c *vlCval, json bool) string {
+	switch c.k {
+	case 's':
+		if json {
+			return strconv.Quote(c.s)
+		}
+		return c.s
+	case 'i':
+		return strconv.FormatInt(c.i, 10)
+	case 'b':
+		return strconv.FormatBool(c.b)
+	case 'l':
+		var p []string
+		for _, e := range c.l {
+			p = append(p, vlLitText(e, json))
+		}
+		return "[" + strings.Join(p, ",") + "]"
+	case 'm':
+		var p []string
+		for i, k := range c.mk {
+			if json {
+				p = append(p, strconv.Quote(k)+":"+vlLitText(c.mv[i], json))
+			} else {
+				p = append(p, k+":"+vlLitText(c.mv[i], json))
+			}
+		}
+		if json {
+			return "{" + strings.Join(p, ",") + "}"
+		}
+		return "map[" + strings.Join(p, " ") + "]"
+	}
+	panic("vlLitText: value outside the literal class")
+}
+
+var vlMemberWords = []string{"host", "port", "usetls", "name", "ttl", "maxconn", "mode", "zone", "tags", "owner", "limit", "path"}
+
+// vlKeyedStruct: a struct type over 1-4 member words and one map of data for it.  spellName / spellKey decide how the
+// member's (yaml) name and its key are written.  A member may be missing from the data; now and then the data has a key no
+// member is named after.  Member types: string, int, bool, []string, (depth 0) a nested struct.
+type vlKeyedGen struct {
+	r         *hx.Rng
+	spellName func(w string) string
+	spellKey  func(w string) string
+}
+
+func (g *vlKeyedGen) structType(depth int) (*vlFty, []string) {
+	r := g.r
+	t := &vlFty{k: 'T'}
+	var words []string
+	for _, i := range r.Perm(len(vlMemberWords))[:1+r.Intn(4)] {
+		w := vlMemberWords[i]
+		var ft *vlFty
+		switch r.Intn(8) {
+		case 0, 1, 2:
+			ft = vlTS
+		case 3, 4:
+			ft = vlTI
+		case 5:
+			ft = vlTB
+		case 6:
+			ft = vlTLS
+		default:
+			if depth < 1 {
+				ft, _ = g.structType(depth + 1)
+			} else {
+				ft = vlTPI
+			}
+		}
+		words = append(words, w)
+		t.fields = append(t.fields, vlFfield{name: g.spellName(w), t: ft})
+	}
+	return t, words
+}
+
+func (g *vlKeyedGen) leaf(t *vlFty) *vlCval {
+	r := g.r
+	switch t.k {
+	case 'S':
+		return vlCStr(vlGenPlainWord(r))
+	case 'I':
+		return vlCInt(int64(1 + r.Intn(9999)))
+	case 'B':
+		return vlCBool(r.Bool())
+	case 'P':
+		return g.leaf(t.elem)
+	case 'L':
+		c := &vlCval{k: 'l'}
+		for i, n := 0, 1+r.Intn(3); i < n; i++ {
+			c.l = append(c.l, g.leaf(t.elem))
+		}
+		return c
+	case 'T':
+		return g.data(t)
+	}
+	panic("vlKeyedGen.leaf")
+}
+
+// data: one map for the struct type; the key of a member is the member's word as spellKey writes it.
+func (g *vlKeyedGen) data(t *vlFty) *vlCval {
+	r := g.r
+	kv := map[string]*vlCval{}
+	for i, f := range t.fields {
+		if i > 0 && r.P(1, 6) {
+			continue // a member the data does not mention keeps its zero value
+		}
+		kv[g.spellKey(strings.ToLower(f.name))] = g.leaf(f.t)
+	}
+	if r.P(1, 4) {
+		kv[g.spellKey("extra")] = vlCStr(vlGenPlainWord(r))
+	}
+	return vlCMap(kv)
+}
+
+// wrap: the struct itself, a pointer to it, a slice of it, a map of it (outer keys in lower case).
+func (g *vlKeyedGen) wrap(t *vlFty) (*vlFty, *vlCval) {
+	r := g.r
+	switch r.Intn(10) {
+	case 0, 1, 2, 3:
+		return t, g.data(t)
+	case 4, 5:
+		return &vlFty{k: 'P', elem: t}, g.data(t)
+	case 6, 7:
+		c := &vlCval{k: 'l'}
+		for i, n := 0, 1+r.Intn(3); i < n; i++ {
+			c.l = append(c.l, g.data(t))
+		}
+		return &vlFty{k: 'L', elem: t}, c
+	default:
+		kv := map[string]*vlCval{}
+		for i, n := 0, 1+r.Intn(3); i < n; i++ {
+			kv[vlGenKey(r)] = g.data(t)
+		}
+		return &vlFty{k: 'M', elem: t}, vlCMap(kv)
+	}
+}
+
+// vlKeyedCase: the V3 case over (type, data) in one of the forms
+//
+//	lit    value:"map[Host:a Port:1]"      prop:"k"          prefix:"k"    the document has the same data under k
+//	json   value:"{\"Host\":\"a\",…}"      prop:"k"          prefix:"k"
+//	dflt   value:"${kabsent:map[Host:a]}"  prop:"kabsent:…"  prefix:"k"    kabsent is not configured
+//	route  value:"${k}"                    prop:"k"          prefix:"k"
+func vlKeyedCase(r *hx.Rng, t *vlFty, data *vlCval, form string) *vlVcase {
+	key := vlGenKey(r)
+	c := &vlVcase{kind: "V3", t: t, subject: data, cfg: vlCMap(map[string]*vlCval{"kz": vlCStr("zz"), key: data})}
+	switch form {
+	case "lit", "json":
+		c.literal = true
+		c.tags = [][]vlTnode{{vlTLit(vlLitText(data, form == "json"))}, {vlTLit(key)}, {vlTLit(key)}}
+	case "dflt":
+		c.literal = true
+		absent := key + "x"
+		d := vlLitText(data, false)
+		c.tags = [][]vlTnode{{vlTPHD(absent, d)}, {vlTLit(absent + ":" + d)}, {vlTLit(key)}}
+	default:
+		c.tags = [][]vlTnode{{vlTPH(key)}, {vlTLit(key)}, {vlTLit(key)}}
+	}
+	c.labels = []string{"form-" + form, "type-" + string(t.k)}
+	return c
+}
+
+// vlGenC17KeyCase: family (1).
+func vlGenC17KeyCase(r *hx.Rng) *vlVcase {
+	// the first member's key is spelled with a capital and differently from the member's name; the others as they come
+	first := true
+	var firstKeyStyle int
+	g := &vlKeyedGen{r: r}
+	nameStyle := map[string]int{}
+	g.spellName = func(w string) string {
+		st := r.Intn(5)
+		if first {
+			firstKeyStyle = 1 + r.Intn(3)
+			st = []int{0, 1, 2, 3}[r.Intn(4)]
+			if st == firstKeyStyle {
+				st = 0
+			}
+			first = false
+			nameStyle[w] = -1
+		}
+		return vlSpell(r, w, st)
+	}
+	g.spellKey = func(w string) string {
+		if nameStyle[w] == -1 {
+			return vlSpell(r, w, firstKeyStyle)
+		}
+		return vlSpell(r, w, r.Intn(5))
+	}
+	st, _ := g.structType(0)
+	t, data := g.wrap(st)
+	form := []string{"lit", "lit", "lit", "json", "json", "dflt", "dflt", "dflt", "route", "route"}[r.Intn(10)]
+	c := vlKeyedCase(r, t, data, form)
+	if r.P(1, 8) {
+		c.args = ",required=false"
+		c.labels = append(c.labels, "optional")
+	}
+	c.labels = append([]string{"keycase"}, c.labels...)
+	vlGenFlagsC17(r, c)
+	return c
+}
+
+// vlDecoysOf: one or two keys that differ from the key by `-` / `_` only and are not in `taken`.
+func vlDecoysOf(r *hx.Rng, k string, taken map[string]bool) []string {
+	var out []string
+	for try := 0; try < 8 && len(out) < 1+r.Intn(2); try++ {
+		sep := []string{"_", "-"}[r.Intn(2)]
+		var d string
+		switch r.Intn(5) {
+		case 0:
+			d = sep + k
+		case 1:
+			d = k + sep
+		case 2:
+			i := 1 + r.Intn(len(k))
+			d = k[:i] + sep + k[i:]
+		case 3:
+			d = strings.NewReplacer("_", "", "-", "").Replace(k) // `ab` next to `a_b`
+		default:
+			d = strings.NewReplacer("_", "-").Replace(k)
+			if d == k {
+				d = sep + k + sep
+			}
+		}
+		if d == "" || taken[strings.ToLower(d)] {
+			continue
+		}
+		taken[strings.ToLower(d)] = true
+		out = append(out, d)
+	}
+	return out
+}
+
+// vlGenC17Decoy: family (2).  Members are named after words that may contain a separator (`max_conn`, `a-b`); the name has a
+// capital three times in four (then no key is spelled exactly like it).  The data has, next to a member's key, one or two decoys
+// with another value of the same type.
+func vlGenC17Decoy(r *hx.Rng) *vlVcase {
+	words := []string{"a", "ab", "a_b", "maxconn", "max_conn", "max-conn", "host", "ttl", "use-tls", "b", "rate_limit", "zone"}
+	t := &vlFty{k: 'T'}
+	taken := map[string]bool{}
+	var keys []string
+	for _, i := range r.Perm(len(words))[:1+r.Intn(3)] {
+		w := words[i]
+		if taken[w] {
+			continue
+		}
+		taken[w] = true
+		keys = append(keys, w)
+		style := 0
+		if r.P(3, 4) {
+			style = 1 + r.Intn(4)
+		}
+		ft := []*vlFty{vlTS, vlTI, vlTI, vlTB}[r.Intn(4)]
+		t.fields = append(t.fields, vlFfield{name: vlSpell(r, w, style), t: ft})
+	}
+	g := &vlKeyedGen{r: r}
+	one := func() *vlCval {
+		kv := map[string]*vlCval{}
+		mine := map[string]bool{}
+		for k := range taken {
+			mine[k] = true
+		}
+		for i, k := range keys {
+			ft := t.fields[i].t
+			v := g.leaf(ft)
+			kv[k] = v
+			for _, d := range vlDecoysOf(r, k, mine) {
+				w := g.leaf(ft)
+				switch ft.k { // another value
+				case 'S':
+					w = vlCStr(v.s + "x")
+				case 'I':
+					w = vlCInt(v.i + 1 + int64(r.Intn(50)))
+				case 'B':
+					w = vlCBool(!v.b)
+				}
+				kv[d] = w
+			}
+		}
+		return vlCMap(kv)
+	}
+	var data *vlCval
+	switch r.Intn(8) {
+	case 0, 1, 2, 3:
+		data = one()
+	case 4:
+		t, data = &vlFty{k: 'P', elem: t}, one()
+	case 5, 6:
+		l := &vlCval{k: 'l'}
+		for i, n := 0, 1+r.Intn(2); i < n; i++ {
+			l.l = append(l.l, one())
+		}
+		t, data = &vlFty{k: 'L', elem: t}, l
+	default:
+		kv := map[string]*vlCval{}
+		for i, n := 0, 1+r.Intn(2); i < n; i++ {
+			kv[vlGenKey(r)] = one()
+		}
+		t, data = &vlFty{k: 'M', elem: t}, vlCMap(kv)
+	}
+	form := []string{"route", "route", "route", "route", "route", "route", "lit", "lit", "json", "dflt"}[r.Intn(10)]
+	c := vlKeyedCase(r, t, data, form)
+	c.labels = append([]string{"decoy"}, c.labels...)
+	c.repeat = true
+	if r.P(1, 3) {
+		c.kcase = 1 + r.Intn(vlKeyCases)
+	}
+	vlGenFlagsC17(r, c)
+	return c
+}
+
+// vlValueKeyCorpus: families (1) and (2) by hand.
+func vlValueKeyCorpus(w *hx.Writer) {
+	ep := &vlFty{k: 'T', fields: []vlFfield{{"host", vlTS, ""}, {"port", vlTI, ""}, {"useTLS", vlTB, ""}}}
+	data := vlCMap(map[string]*vlCval{"Host": vlCStr("example.org"), "Port": vlCInt(8443), "UseTLS": vlCBool(true)})
+	lower := vlCMap(map[string]*vlCval{"host": vlCStr("example.org"), "port": vlCInt(8443), "usetls": vlCBool(true)})
+	r := hx.NewRng(7)
+	for _, form := range []string{"lit", "json", "dflt", "route"} {
+		for _, t := range []*vlFty{ep, {k: 'P', elem: ep}} {
+			c := vlKeyedCase(r, t, data, form)
+			c.labels = append([]string{"corpus", "keycase"}, c.labels...)
+			vlRunCase(c, w)
+		}
+		c := vlKeyedCase(r, &vlFty{k: 'L', elem: ep}, vlCList(data, vlCMap(map[string]*vlCval{"HOST": vlCStr("b.example.org"), "port": vlCInt(1)})), form)
+		c.labels = append([]string{"corpus", "keycase"}, c.labels...)
+		vlRunCase(c, w)
+		c = vlKeyedCase(r, &vlFty{k: 'M', elem: ep}, vlCMap(map[string]*vlCval{"ea": data, "eb": vlCMap(map[string]*vlCval{"hOST": vlCStr("b.example.org")})}), form)
+		c.labels = append([]string{"corpus", "keycase"}, c.labels...)
+		vlRunCase(c, w)
+	}
+	// the document spells its keys with capitals (flag c), the member names have capitals of their own
+	for style := 1; style <= vlKeyCases; style++ {
+		c := vlKeyedCase(r, &vlFty{k: 'T', fields: []vlFfield{{"HOST", vlTS, ""}, {"Port", vlTI, ""}, {"useTLS", vlTB, ""}}}, lower, "route")
+		c.kcase = style
+		c.labels = append([]string{"corpus", "keycase"}, c.labels...)
+		vlRunCase(c, w)
+	}
+	// decoys: `max-conn` and `max_conn` next to `maxconn`; `a` next to `_a`, `a-`; `a_b` next to `ab`
+	pool := &vlFty{k: 'T', fields: []vlFfield{{"maxConn", vlTI, ""}, {"A", vlTI, ""}, {"a_B", vlTS, ""}}}
+	sec := vlCMap(map[string]*vlCval{"maxconn": vlCInt(16), "max-conn": vlCInt(8), "max_conn": vlCInt(64), "a": vlCInt(1), "_a": vlCInt(2), "a-": vlCInt(3),
+		"a_b": vlCStr("right"), "ab": vlCStr("decoy")})
+	for _, form := range []string{"route", "lit", "json", "dflt"} {
+		for _, t := range []*vlFty{pool, {k: 'P', elem: pool}, {k: 'L', elem: pool}} {
+			d := sec
+			if t.k == 'L' {
+				d = vlCList(sec, sec)
+			}
+			c := vlKeyedCase(r, t, d, form)
+			c.repeat = true
+			c.labels = append([]string{"corpus", "decoy"}, c.labels...)
+			vlRunCase(c, w)
+		}
+	}
+}
+
+// ---- (3) points in time
+
+var (
+	vlTZ  = &vlFty{k: 'Z'}
+	vlTY  = &vlFty{k: 'Y'}
+	vlTPZ = &vlFty{k: 'P', elem: vlTZ}
+	vlTPY = &vlFty{k: 'P', elem: vlTY}
+)
+
+var vlTimeLayouts = []string{"2006-01-02", time.RFC3339, "20060102", "02/01/2006", "2006-01-02T15:04:05"}
+
+// vlGenTimeCase: family (3).
+func vlGenTimeCase(r *hx.Rng) *vlVcase {
+	labels := []string{"time"}
+	t := []*vlFty{vlTZ, vlTZ, vlTZ, vlTPZ, vlTPZ, vlTPZ, vlTY, vlTY, vlTPY}[r.Intn(9)]
+	tm := time.Date(2000+r.Intn(38), time.Month(1+r.Intn(12)), 1+r.Intn(28), 0, 0, 0, 0, time.UTC)
+	dateOnly := r.Bool()
+	if !dateOnly {
+		tm = tm.Add(time.Duration(r.Intn(86400)) * time.Second)
+	}
+	stamp := func() *vlCval {
+		if dateOnly {
+			return vlCStamp(tm.Format("2006-01-02"))
+		}
+		return vlCStamp(tm.Format("2006-01-02T15:04:05Z"))
+	}
+	layout := vlTimeLayouts[r.Intn(len(vlTimeLayouts))]
+	key := vlGenKey(r)
+	c := &vlVcase{kind: "Q", t: t, tags: [][]vlTnode{{vlTLit(key)}}}
+	cfg := map[string]*vlCval{"kz": vlCStr("zz")}
+	layoutArg := ""
+	switch k := r.Intn(10); {
+	case k < 3: // a YAML timestamp bound by prefix: yaml hands over a time.Time, no layout is involved
+		cfg[key] = stamp()
+		labels = append(labels, "stamp", "by-prefix")
+	case k < 5: // a text in the layout the tag names, bound by prefix
+		cfg[key] = vlCStr(tm.Format(layout))
+		layoutArg = ",timeLayout=" + layout
+		labels = append(labels, "text-layout", "by-prefix")
+	case k < 6: // the same through a placeholder
+		c.kind, c.tags = "E", [][]vlTnode{{vlTPH(key)}}
+		cfg[key] = vlCStr(tm.Format(layout))
+		layoutArg = ",timeLayout=" + layout
+		labels = append(labels, "text-layout", "by-value")
+	case k < 7: // a YAML timestamp through a placeholder: formatted as a JSON text, read back with the RFC 3339 layout
+		c.kind, c.tags = "E", [][]vlTnode{{vlTPH(key)}}
+		cfg[key] = stamp()
+		layoutArg = ",timeLayout=" + time.RFC3339
+		labels = append(labels, "stamp", "by-value")
+	case k < 8: // a literal in the tag
+		c.kind, c.tags = "E", [][]vlTnode{{vlTLit(tm.Format(layout))}}
+		layoutArg = ",timeLayout=" + layout
+		labels = append(labels, "text-layout", "literal")
+	case k < 9: // nothing configured, the point is optional
+		if r.Bool() {
+			c.kind, c.tags = "E", [][]vlTnode{{vlTPH(key)}}
+		}
+		layoutArg = []string{"", ",timeLayout=" + layout}[r.Intn(2)] + ",required=false"
+		labels = append(labels, "absent-optional")
+	default: // a text and no layout / a text that is not of the layout
+		if r.Bool() {
+			cfg[key] = vlCStr(tm.Format(layout))
+		} else {
+			cfg[key] = vlCStr(vlGenPlainWord(r))
+			layoutArg = ",timeLayout=" + layout
+		}
+		labels = append(labels, "unreadable")
+	}
+	val := ""
+	switch r.Intn(6) {
+	case 0, 1:
+	case 2, 3:
+		val = ",validate=required"
+	case 4:
+		val = ",validate"
+	default:
+		val = ",validate=" + []string{"omitempty", "gt", "required lt", "omitempty gt"}[r.Intn(4)]
+	}
+	if val != "" {
+		labels = append(labels, "validate")
+	}
+	if r.Bool() {
+		c.args = layoutArg + val
+	} else {
+		c.args = val + layoutArg
+	}
+	c.cfg = vlCMap(cfg)
+	c.labels = append(labels, "type-"+t.code())
+	c.dep = r.P(1, 10) // drawn last
+	return c
+}
+
+// vlValueTimeCorpus: family (3) by hand.
+func vlValueTimeCorpus(w *hx.Writer) {
+	cfg := func() *vlCval {
+		return vlCMap(map[string]*vlCval{"start": vlCStamp("2024-05-01"), "at": vlCStamp("2024-05-01T10:20:30Z"), "txt": vlCStr("2024-05-01"), "rfc": vlCStr("2024-05-01T10:20:30+02:00")})
+	}
+	mk := func(kind string, t *vlFty, tag vlTnode, args string) {
+		vlRunCase(&vlVcase{kind: kind, t: t, cfg: cfg(), args: args, tags: [][]vlTnode{{tag}}, labels: []string{"corpus", "time"}}, w)
+	}
+	for _, t := range []*vlFty{vlTZ, vlTPZ, vlTY, vlTPY} {
+		for _, val := range []string{"", ",validate=required", ",validate"} {
+			mk("Q", t, vlTLit("start"), val)
+			mk("Q", t, vlTLit("at"), val)
+			mk("Q", t, vlTLit("txt"), ",timeLayout=2006-01-02"+val)
+			mk("Q", t, vlTLit("txt"), val) // a text and no layout
+			mk("E", t, vlTPH("rfc"), val+",timeLayout="+time.RFC3339)
+			mk("E", t, vlTPH("at"), ",timeLayout="+time.RFC3339+val)
+			mk("E", t, vlTLit("2024-05-01"), ",timeLayout=2006-01-02"+val)
+			mk("Q", t, vlTLit("nope"), ",required=false"+val)
+		}
 	}
 }
